@@ -1,11 +1,15 @@
 package main
 
 // Foreign streams: valid key frames from the independent emitter of package vp8gen (random syntax
-// plans; see vp8gen.go), decoded by Go and by the specification decoder.
+// plans; see vp8gen.go), decoded by Go and by the specification decoder.  Plans whose coefficients
+// leave the 16-bit range of RFC 6386's own arithmetic (Plan.Wide) are outside "valid key frames with
+// samples defined by the RFC": they are counted as observations and produce no case.
 
 import (
 	"fmt"
 	"strings"
+
+	webp "github.com/deepteams/webp"
 
 	. "verifharness/hlib"
 	"verifharness/vp8gen"
@@ -20,9 +24,9 @@ func b2i(b bool) int {
 
 func foreignStreams(c *Ctx) {
 	rng := c.Rng.Fork()
-	n, maxDim := 260, 64
+	n, maxDim := 340, 64 // about 4 in 10 plans are wide and only counted
 	if c.Thorough() {
-		n, maxDim = 3000, 160
+		n, maxDim = 4500, 160
 	}
 	for i := 0; i < n; i++ {
 		r := rng.Fork()
@@ -44,6 +48,21 @@ func foreignStreams(c *Ctx) {
 		p := vp8gen.RandPlan(r, md, feat)
 		payload := p.Emit(r)
 		tag := p.Tag()
+		if p.Wide {
+			// outside the property's domain: some coefficient set makes RFC 6386's own 16-bit variables
+			// overflow (implementation-defined narrowing in its code), so the RFC defines no samples for
+			// the frame.  Observed, never reported: no case, no violation.
+			c.Count("observation:foreign-wide-coefficients")
+			l1, _, _, _, _, _, pan := goDecode(payload)
+			var l2 string
+			webp.VerifWithPortableDecoderKernels(func() { l2, _, _, _, _, _, _ = goDecode(payload) })
+			if pan != nil {
+				c.Count("observation:wide-stream-decoder-panic")
+			} else if l1 != l2 {
+				c.Count("observation:wide-stream-dispatched-kernels-differ-from-portable")
+			}
+			continue
+		}
 		c.Count("foreign:" + strings.SplitN(tag, ":", 3)[1])
 		for _, nt := range p.Notes {
 			c.Count("foreign-note:" + nt)
